@@ -470,7 +470,8 @@ def c13(tier, rng, fam='C13'):
             b.step('inj', dir='s2c', env=A[name](i, meth[i]))
         b.q()
         b.step('trl', c=2)
-        b.step('fault', what='cread')   # the connection is closed
+        # the connection is closed: reported as an error, or as io.EOF the way net.Pipe / TCP transports do
+        b.step('fault', what='cread' if (len(seq) + stats) % 2 == 0 else 'creadeof')
         b.q()
         return b.done()
 
